@@ -92,23 +92,17 @@ Theorem C31_key_substitution_keeps_lengths : forall p s, tables_ok p -> Forall v
   map u8w (struct_string p s) = map u8w s.
 Proof. exact struct_string_u8w. Qed.
 
-(* it is injective and keeps the character classes of shape.rs when no control character is sent to the
-   rank of DEL ... *)
-Theorem C31_key_substitution_injective : forall p s1, tables_ok p -> tables_inj p -> no_del_rank p ->
+(* it is injective and keeps the character classes of shape.rs (ASCII control / printable ASCII / UTF-8
+   length) for every permutation of the ranks: two different keys never become one.  (Before the repair
+   bd9e88bf3 of structural_character_from_rank the rank of DEL came out as U+0020 for an original below
+   U+0020 and both statements were refuted.) *)
+Theorem C31_key_substitution_injective : forall p s1, tables_ok p -> tables_inj p ->
   forall s2, Forall valid_char s1 -> Forall valid_char s2 -> struct_string p s1 = struct_string p s2 -> s1 = s2.
 Proof. exact struct_string_inj. Qed.
 
-Theorem C31_key_substitution_keeps_classes : forall p c, tables_ok p -> no_del_rank p -> valid_char c ->
+Theorem C31_key_substitution_keeps_classes : forall p c, tables_ok p -> valid_char c ->
   kclass (struct_replace p c) = kclass c.
 Proof. exact struct_replace_kclass. Qed.
-
-(* ... which the code does not ensure: a derangement of each alphabet under which TAB and '~' both become
-   U+0020 (structural_character_from_rank returns the rank itself for an original below U+0020, so the rank
-   of DEL comes out as a space): two different keys can become one, and the class changes *)
-Theorem C31_key_substitution_refuted :
-  exists p, tables_ok p /\ tables_inj p /\ tables_derange p /\
-    struct_replace p 9 = struct_replace p 126 /\ kclass (struct_replace p 9) <> kclass 9.
-Proof. exact struct_replace_refuted. Qed.
 
 (* anonymize_scalar keeps the kind and the encoded shape of a value (UTF-8 length of every character of a
    string, length of bytes, type code of unknown values), whatever is drawn *)
@@ -122,11 +116,11 @@ Theorem C31_content_class_refuted :
 Proof. exact content_class_refuted. Qed.
 
 (* the renaming the code builds satisfies the hypotheses of the equivariance theorems, for every prefix,
-   every table without the DEL-rank collision, every value map that keeps shapes and every injective hash map *)
+   every injective table, every value map that keeps shapes and every injective hash map *)
 Theorem C31_code_renaming_good : forall prefix p vals incs fh appl hs,
   wf_ids (all_ops appl) ->
   N.of_nat (length (actor_set (hist_actors appl))) <= 18446744073709551616 ->
-  tables_ok p -> tables_inj p -> no_del_rank p ->
+  tables_ok p -> tables_inj p ->
   (forall k, In k (map_keys (all_ops appl)) -> Forall valid_char k) ->
   (forall o v, In o (all_ops appl) -> op_action o = APut v -> sshape (vals (op_id o) v) = sshape v) ->
   (forall x y, In x (hist_hashes appl hs) -> In y (hist_hashes appl hs) -> fh x = fh y -> x = y) ->
@@ -136,7 +130,7 @@ Proof. exact code_renaming_good. Qed.
 Theorem C31_anonymize_preserves_shape : forall prefix p vals incs fh appl hs,
   wf_ids (all_ops appl) ->
   N.of_nat (length (actor_set (hist_actors appl))) <= 18446744073709551616 ->
-  tables_ok p -> tables_inj p -> no_del_rank p ->
+  tables_ok p -> tables_inj p ->
   (forall k, In k (map_keys (all_ops appl)) -> Forall valid_char k) ->
   (forall o v, In o (all_ops appl) -> op_action o = APut v -> sshape (vals (op_id o) v) = sshape v) ->
   (forall x y, In x (hist_hashes appl hs) -> In y (hist_hashes appl hs) -> fh x = fh y -> x = y) ->
